@@ -260,7 +260,13 @@ def run_edits(ctx, case):
                         continue
                     it = src[k % len(src)]
                     if t == "emg":
-                        blk.addSignal(it)
+                        # explicit free channel: the automatic one (max+1) leaves the 16-bit range when 32767 is in use,
+                        # which no property speaks about
+                        used = {int(c) for c in blk._emgMap}
+                        c = 0
+                        while c in used:
+                            c += 1
+                        blk.addSignal(it, channel=c)
                     elif t in ("platCal", "platData"):
                         used = {int(c) for c, _ in (blk.platforms if t == "platCal" else list(blk))}
                         c = 0
